@@ -9,7 +9,7 @@ META = dict(
               "success per attempt; per retry a solver-chosen handler decision; six solver booleans place handler / "
               "before_sleep / sleeper at policy level and/or call level (each level has its own spy); async: sync or "
               "`async def` before_sleep and sleeper variants; no sleeper given => the default time.sleep/asyncio.sleep "
-              "(intercepted by the virtual clock); timed variant (N=2) in which the handler itself takes a solver-chosen "
+              "(intercepted by the virtual clock); a variant in which every callback is a falsy callable object; timed variant (N=2) in which the handler itself takes a solver-chosen "
               "time, so the deadline can pass while it decides",
         thorough="N=4",
     ),
@@ -133,6 +133,12 @@ def jobs(tier):
                                             max_attempts=N + 1, place=True, async_variants=entry.startswith("a"),
                                             pin={"o1": o1}, pin_place={"h_call": hp}),
                                 max_wall_s=600 if q else 3000, weight=2))
+    # callbacks handed over as falsy callable objects (legal: only `None` means "not given")
+    for entry in entries[:4]:
+        out.append(dict(name=f"falsy:{entry}", harness="rv.props.c16:h_run",
+                        params=dict(entry=entry, N=2, kinds=["ok", "exc", "res"], classes=["TRANSIENT"], max_attempts=3,
+                                    place=True, async_variants=entry.startswith("a"), falsy=True), max_wall_s=600 if q else 3000,
+                        weight=2))
     # handlers that take time: the decision must still be honoured when the deadline passes meanwhile
     for entry in entries[:4]:
         out.append(dict(name=f"timed:{entry}", harness="rv.props.c16:h_run",
